@@ -12,7 +12,7 @@ import common
 
 BASES = ["int", "long", "uint", "ulong", "llong", "longint", "unsigned", "short", "shortint", "ushort", "ushortint", "ulongint",
          "llongint", "ullong", "ullongint", "double", "float", "char", "bool",
-         "size_t", "string", "vecint", "vecdouble", "cls", "nscls"]
+         "size_t", "string", "vecint", "vecdouble", "vecuint", "vecllong", "cls", "nscls"]
 BASE_TOK = {
     "int": ["int"], "long": ["long"], "uint": ["unsigned", "int"], "ulong": ["unsigned", "long"],
     "llong": ["long", "long"], "longint": ["long", "int"], "unsigned": ["unsigned"],
@@ -22,6 +22,7 @@ BASE_TOK = {
     "double": ["double"], "float": ["float"], "char": ["char"], "bool": ["bool"], "void": ["void"],
     "size_t": ["size_t"], "string": ["std", "::", "string"],
     "vecint": ["std", "::", "vector", "<", "int", ">"], "vecdouble": ["std", "::", "vector", "<", "double", ">"],
+    "vecuint": ["std", "::", "vector", "<", "unsigned", "int", ">"], "vecllong": ["std", "::", "vector", "<", "long", "long", ">"],
     "cls": ["Cls"], "nscls": ["ns", "::", "Inner"],
 }
 
